@@ -216,6 +216,19 @@ def _p_ceil(x):
     return f(x)
 
 
+def _p_arange(*args, **kw):
+    """np.arange with symbolic integer bounds: bounded concretisation (path forking)"""
+    conc = []
+    for a in args:
+        if isinstance(a, SI):
+            conc.append(int(a))
+        elif isinstance(a, S) and a.is_concrete():
+            conc.append(float(a))
+        else:
+            conc.append(a)
+    return np.arange(*conc, **kw)
+
+
 def _p_allclose(a, b, *args, **kw):
     if not (_is_sym(a) or _is_sym(b)):
         return np.allclose(a, b, *args, **kw)
@@ -253,7 +266,7 @@ def _p_isnan(x):
 
 DEFAULT_NP_OVERRIDES = {
     "zeros": _p_zeros, "empty": _p_empty, "ones": _p_ones, "exp": _p_exp,
-    "round": _p_round, "allclose": _p_allclose, "real": _p_real, "isnan": _p_isnan, "floor": _p_floor, "ceil": _p_ceil,
+    "round": _p_round, "allclose": _p_allclose, "real": _p_real, "isnan": _p_isnan, "floor": _p_floor, "ceil": _p_ceil, "arange": _p_arange,
 }
 
 _DTYPE_NAMES = ("NpDtype", "NpDtypeReal")
